@@ -453,6 +453,34 @@ func (s *state) checkTemplate(mpol mining.Policy) {
 	if err := e.Chain.CheckConnectBlockTemplate(btcutil.NewBlock(blk)); err != nil {
 		s.fail("template invalid after UpdateExtraNonce(%d): %v", en, err)
 	}
+	// a miner keeps working on this template while the node hands out the next one (other
+	// submissions in between): generating the second template must not disturb the first
+	{
+		var before, after bytes.Buffer
+		if err := blk.Serialize(&before); err != nil {
+			s.fail("VERIF-INFRA: serialize: %v", err)
+		}
+		s.submitSome(rapid.IntRange(0, 4).Draw(t, "betweenTemplates"))
+		tmpl2, err := e.Gen.NewBlockTemplate(payTo)
+		if err != nil {
+			s.fail("second NewBlockTemplate failed although every pooled transaction was admitted on the current chain: %v", err)
+		}
+		if err := e.Chain.CheckConnectBlockTemplate(btcutil.NewBlock(tmpl2.Block)); err != nil {
+			s.fail("second template rejected by CheckConnectBlockTemplate: %v", err)
+		}
+		if err := blk.Serialize(&after); err != nil {
+			s.fail("VERIF-INFRA: serialize: %v", err)
+		}
+		if !bytes.Equal(before.Bytes(), after.Bytes()) {
+			s.fail("generating a second template changed the first one (%d transactions in the first, %d in the second): its serialization differs", len(blk.Transactions), len(tmpl2.Block.Transactions))
+		}
+		if err := e.Chain.CheckConnectBlockTemplate(btcutil.NewBlock(blk)); err != nil {
+			s.fail("the first template is no longer valid after a second one was generated: %v", err)
+		}
+		if len(tmpl2.Block.Transactions) != len(blk.Transactions) {
+			recTmpl.Count("second-template-differs", 1)
+		}
+	}
 	// solve and submit: the block must become the new tip
 	ce.Solve(&blk.Header, false)
 	_, orphan, err := e.Chain.ProcessBlock(btcutil.NewBlock(blk), 0)
